@@ -2,6 +2,8 @@ package main
 
 import (
 	"fmt"
+	"go/ast"
+	"go/token"
 	"go/types"
 	"os"
 	"path/filepath"
@@ -139,7 +141,7 @@ func LoadProgram(moduleDir, pattern string, harness []string) (*Loaded, error) {
 	if len(spkgs) != 1 || spkgs[0] == nil {
 		return nil, fmt.Errorf("expected one root package, got %d", len(spkgs))
 	}
-	P := &Program{prog: prog, fset: prog.Fset, noInit: noInitPkg}
+	P := &Program{prog: prog, fset: prog.Fset, noInit: noInitPkg, embeds: collectEmbeds(pkgs)}
 	if rt := prog.ImportedPackage("runtime"); rt != nil {
 		runtimeErrorStringType = rt.Type("errorString").Object().Type()
 	} else {
@@ -147,4 +149,52 @@ func LoadProgram(moduleDir, pattern string, harness []string) (*Loaded, error) {
 		runtimeErrorStringType = types.Typ[types.String]
 	}
 	return &Loaded{Prog: P, Pkg: spkgs[0], PkgDir: pkgDir, Name: name}, nil
+}
+
+
+// collectEmbeds: //go:embed variables of type string or []byte (single file patterns). The gc
+// toolchain fills them at link time; the interpreter reads the files from the package directory.
+func collectEmbeds(pkgs []*packages.Package) map[types.Object][]byte {
+	out := map[types.Object][]byte{}
+	packages.Visit(pkgs, nil, func(p *packages.Package) {
+		if p.TypesInfo == nil {
+			return
+		}
+		for _, f := range p.Syntax {
+			fname := p.Fset.Position(f.Pos()).Filename
+			for _, d := range f.Decls {
+				gd, ok := d.(*ast.GenDecl)
+				if !ok || gd.Tok != token.VAR {
+					continue
+				}
+				for _, sp := range gd.Specs {
+					vs := sp.(*ast.ValueSpec)
+					doc := vs.Doc
+					if doc == nil && len(gd.Specs) == 1 {
+						doc = gd.Doc
+					}
+					if doc == nil || len(vs.Names) != 1 {
+						continue
+					}
+					for _, c := range doc.List {
+						if !strings.HasPrefix(c.Text, "//go:embed ") {
+							continue
+						}
+						pat := strings.Trim(strings.TrimSpace(strings.TrimPrefix(c.Text, "//go:embed ")), "\"")
+						if strings.ContainsAny(pat, "*? ") {
+							continue
+						}
+						data, err := os.ReadFile(filepath.Join(filepath.Dir(fname), pat))
+						if err != nil {
+							continue // a directory (embed.FS) or missing: left zero
+						}
+						if obj := p.TypesInfo.Defs[vs.Names[0]]; obj != nil {
+							out[obj] = data
+						}
+					}
+				}
+			}
+		}
+	})
+	return out
 }
